@@ -35,7 +35,8 @@ type Pointer struct {
 	Root   string     // SMT Int; 0 = nil
 	Idx    string     // SMT Int index when Rows
 	Path   []int      // struct field indices below the cell
-	ArrLen int64      // >0: this is a pointer to an array [ArrLen]Elem starting at Idx
+	ArrLen int64      // with IsArr: this is a pointer to an array [ArrLen]Elem starting at Idx
+	IsArr  bool
 	Fresh  bool       // freshly allocated in this function (non-nil, writable)
 }
 
